@@ -522,7 +522,7 @@ def run_c17(ctx):
                 'enumerated depth-first in the harness and in the extracted model and compared by a position-sensitive checksum of every node\'s returned value and '
                 'forward iteration; in the reduced enumerations the non-final positions draw one representative per class of operations with literally the same state '
                 'transformer in the model (remove/remove_entry/OccupiedEntry::remove.., or_insert/or_insert_with, ...) while the final position draws from the full set; '
-                'thorough additionally runs the unreduced enumeration (full set at every position) for 3 keys, length 4; '
+                'the unreduced enumeration (full set at every position) is run for 3 keys up to length 3 (thorough: 4); '
                 '(2) random histories of 8-60 operations over 3-12 keys (empty, multi-byte, prefix-related) with nested values, compared operation by operation, '
                 'plus final forward and backward iteration; (3) pairs of values: deep permutations, +0.0/-0.0, int-vs-float and other one-leaf near-misses, compared on ==, '
                 'on the exact Hasher call sequence and on DefaultHasher; (4) sort_all_objects on random nested values. '
@@ -530,6 +530,7 @@ def run_c17(ctx):
                 'equal values hash equally, sort_all_objects sorts every depth and preserves ==. non-trivial = every enumerated node / every compared line')
     for cfg in ctx.cfgs:
         if quick:
+            run_x(ctx, cfg, K3, 3, '3keys-len3-full')
             run_x(ctx, cfg, K3, 4, '3keys-len4-reduced', reduced=True)
         else:
             run_x(ctx, cfg, K3, 4, '3keys-len4-full')
